@@ -29,7 +29,7 @@ type SV struct {
 func parseSV(x D) (*SV, error) {
 	v := &SV{T: dstr(x, "t")}
 	switch v.T {
-	case "undef", "null":
+	case "undef", "null", "gonil":
 	case "bool":
 		v.B = dbool(x, "v")
 	case "int":
@@ -195,6 +195,10 @@ func mismatch(v *SV, dv data.Value, path string) string {
 		return path + ": " + fmt.Sprintf(format, a...)
 	}
 	switch v.T {
+	case "gonil": // MarshalValue returned nil and the converter hands it on
+		if dv != nil {
+			return bad("want the nil interface, got %s", show(dv))
+		}
 	case "undef":
 		if _, ok := dv.(data.Undefined); !ok {
 			return bad("want undefined, got %s", show(dv))
@@ -315,6 +319,8 @@ func show(dv data.Value) (s string) {
 // they are rejected rather than silently altered.
 func encode(dv data.Value) D {
 	switch x := dv.(type) {
+	case nil:
+		return D{"t": "gonil"}
 	case data.Undefined:
 		return D{"t": "undef"}
 	case data.Null:
